@@ -280,7 +280,7 @@ run_s6(void *arg)
 	S6.submitted = 1;
 	pthread_t tc;
 	vs_window(1);
-	nng_dialer_start_aio(d, 0, S6.aio);
+	nng_dialer_start_aio(d, NNG_FLAG_NONBLOCK, S6.aio);
 	if (x->mode == 3)
 		pthread_create(&tc, NULL, s6_canceller, NULL);
 	nng_aio_wait(S6.aio);
